@@ -228,7 +228,14 @@ func markFiles(rng *Rng, nfiles int, dynamic bool) []markFile {
 		}
 		// imports
 		for j := 0; j < i; j++ {
-			if len(files[j].Exports) == 0 || rng.Intn(3) == 0 {
+			if len(files[j].Exports) == 0 {
+				// a file without exports (e.g. one that records mappings but no names) is still linked in, between the others
+				if rng.Intn(3) != 0 {
+					fmt.Fprintf(&g.b, "import \"./%s\";%s", strings.TrimPrefix(files[j].Path, "/"), g.eol)
+				}
+				continue
+			}
+			if rng.Intn(3) == 0 {
 				continue
 			}
 			var items []string
